@@ -32,8 +32,10 @@ type ProcSpec struct {
 	// ExitAfter >= 0: exits on its own that long after start with ExitCode; < 0: runs for ever.
 	ExitAfter time.Duration
 	ExitCode  int
-	OnTerm    Disposition
-	OnInt     Disposition
+	// ExitSignal != 0: instead of exiting it dies from this signal on its own (a crash)
+	ExitSignal syscall.Signal
+	OnTerm     Disposition
+	OnInt      Disposition
 	// Follows >= 0: exits (FollowDelay later, with the followed process's status when
 	// FollowStatus) once process #Follows of the group is gone — a shell waiting for its
 	// foreground child, a helper reading a pipe.
@@ -197,6 +199,10 @@ func (w *World) StartGroup(path string, args, env []string, setpgid bool) (*Grou
 		if p.Spec.ExitAfter >= 0 {
 			p := p
 			simrt.AfterFunc(p.Spec.ExitAfter, func() {
+				if p.Spec.ExitSignal != 0 {
+					w.die(p, Status{Signaled: true, Signal: p.Spec.ExitSignal}, "self")
+					return
+				}
 				w.die(p, Status{Exited: true, Code: p.Spec.ExitCode}, "self")
 			})
 		}
